@@ -5,6 +5,8 @@ CONSTANTS
   MaxEpochs = 2
   MaxSolvers = 2
   RunLengths <- RunLens
+  UserPwms <- NoUser
+  UserStates <- NoUser
 INVARIANT C01_Coupled
 INVARIANT C02_Torques
 INVARIANT C03_Motion
